@@ -16,7 +16,7 @@
   turns it into sites and `inventoryAllChecked` decides whether every site is `wrapper` or `checked`.
   Core Lean only.
 -/
-import M4ri.Gen.Params
+import M4ri.Gen.Inventory
 namespace M4ri.AllocFail
 
 /-- the three kinds of allocation call sites -/
